@@ -933,6 +933,11 @@ impl LeastSquaresProblem<f64, Dyn, U3> for CircleFit<'_> {
 pub mod verif {
     use super::*;
 
+    /// `intersection_line_circle` is public in a private module; expose it for the correspondence check
+    pub fn line_circle(line: &dyn Line2, circle: &Circle2) -> Vec<f64> {
+        intersection_line_circle(line, circle)
+    }
+
     pub struct CircleFitDriver<'a>(CircleFit<'a>);
 
     impl<'a> CircleFitDriver<'a> {
